@@ -1575,7 +1575,8 @@ theorem linv_step_gen (hR : NppRel R) (s : State) (hi : LInv R s) (op : Op) (hwf
   | same h => exact linv_same3 h hi
   | newUpdate b n hj hp hu hb hc h1 hlt => exact linv_newUpdate hi b n hj hp hu hb h1 hlt
   | insert b upd user specs u bt first hop hu hrej hj hp hupd =>
-    subst hop; exact linv_insert hi hu' hu hrej hj hp hupd hok (hins b upd user specs u rfl hu)
+    subst hop; exact linv_insert hi hu' hu hrej hj hp hupd hok
+      (fun sp hsp h1 => hins b upd user specs u rfl hu h1 sp hsp)
   | commit b upd u hu hc hp hupd hj => exact linv_commit hR hi hu' hu hc hp hupd hj
   | driver h => exact linv_driver hi hu' h
   | complete b j att inst ns st e r d job hop hj hact hatt hpu hjobs =>
@@ -1741,5 +1742,120 @@ theorem complete_tallies (s : State) (b j : Nat) (att inst : Option Nat) (ns : J
     exfalso
     exact h2 (by cases hs : job.state <;> simp_all [JState.active])
   · refine ⟨fun _ h => by simp at h, fun _ => by simp⟩
+
+/-! ## C05 helpers -/
+
+theorem find?_map_frame {α : Type} (p : α → Bool) (F : α → α) (hF : ∀ x, p (F x) = p x) (l : List α) :
+    (l.map F).find? p = (l.find? p).map F := by
+  rw [List.find?_map]
+  congr 1
+  congr 1
+  funext y
+  exact hF y
+
+/-- `add_attempt` changes no instance's state (only free cores) -/
+theorem instState_addAttempt (s : State) (b j : Nat) (a i : Option Nat) (c : Int) (n : Option Nat) :
+    instState (addAttempt s b j a i c).1 n = instState s n := by
+  unfold addAttempt
+  split
+  · rfl
+  · split
+    · rfl
+    · dsimp only
+      unfold instState
+      cases n with
+      | none => rfl
+      | some n =>
+        simp only [Option.bind_some, findInstance]
+        rw [find?_map_frame]
+        · cases List.find? (fun x => decide (x.name = n)) s.instances with
+          | none => rfl
+          | some x => simp only [Option.map_some]; split_ifs <;> rfl
+        · intro x; split_ifs <;> rfl
+
+theorem instState_updateAttempts (s : State) (d : Nat) (p : Attempt → Bool)
+    (f : Generated.AttemptsTrigger.Row → Generated.AttemptsTrigger.Row) (n : Option Nat) :
+    instState (updateAttempts s d p f) n = instState s n := rfl
+
+/-- always-run jobs are never "cancelled" for the guards, whatever their mark and their groups -/
+theorem jobCancelled_alwaysRun (s : State) (x : Job) (h : x.alwaysRun = true) : jobCancelled s x = false := by
+  unfold jobCancelled; simp [h]
+
+theorem findJob_updateJobs_isJob (s : State) {b j : Nat} {job : Job} (hj : findJob s b j = some job) (f : Job → Job)
+    (hf : JobFrame f) : findJob (updateJobs s (isJob b j) f) b j = some (f job) := by
+  rw [findJob_mapF (JobFrame.ite _ hf) (updateJobs_jobs s _ f), hj]
+  obtain ⟨_, hb, hid⟩ := mem_of_findJob hj
+  simp [isJob, hb, hid]
+
+theorem parentDone_append_false {s s' : State} {new : List Job} (e : s'.jobs = s.jobs ++ new)
+    (hnew : ∀ y ∈ new, y.state.terminal = false) {b p : Nat} (h : parentDone s b p = false) :
+    parentDone s' b p = false := by
+  unfold parentDone at *
+  cases hf : findJob s b p with
+  | some y => rw [findJob_append_some e hf]; rw [hf] at h; exact h
+  | none =>
+    rw [findJob_append_none e hf]
+    cases hn : new.find? (fun x => decide (x.batch = b ∧ x.id = p)) with
+    | none => rfl
+    | some y => exact hnew y (List.mem_of_find?_eq_some hn)
+
+theorem mkJob_not_terminal (u : Update) (b : Nat) (sp : JobSpec) : (mkJob u b sp).state.terminal = false := by
+  simp only [mkJob]; split_ifs <;> rfl
+
+/-- extra hypothesis for the exact count: a bunch of update 1 names no parent that is already done (first-update jobs
+are not run before the update is committed: the batch is not `running` until then) -/
+def firstFresh (s : State) : Op → Bool
+  | .insertJobs b upd _ specs =>
+    match findUpdate s b upd with
+    | some u => decide (u.id ≠ 1) || specs.all fun sp => (jobParents u sp).all fun p => !parentDone s b p
+    | none => true
+  | _ => true
+
+/-- the `=` instance of the invariant step -/
+theorem linv_step_eq (s : State) (hi : LInv (· = ·) s) (op : Op) (hwf : op.WF) (hok : specsOK s op = true)
+    (hne : noEarlyChild s op = true) (hff : firstFresh s op = true) : LInv (· = ·) (step s op).1 := by
+  refine linv_step_gen nppRel_eq s hi op hwf hok hne ?_
+  intro b upd user specs u hop hu hu1 sp hsp
+  subst hop
+  simp only [firstFresh, hu, hu1, ne_eq, not_true_eq_false, decide_false, Bool.false_or, List.all_eq_true,
+    Bool.not_eq_true'] at hff
+  have hall : ∀ p ∈ jobParents u sp, parentDone (step s (.insertJobs b upd user specs)).1 b p = false := by
+    intro p hp
+    have h0 := hff sp hsp p hp
+    rcases insertJobs_cases s b upd user specs with hsame | ⟨u', bt, first, _, _, hj, _, _⟩
+    · show parentDone (insertJobs s b upd user specs).1 b p = false
+      rw [parentDone_congr hsame.1]; exact h0
+    · refine parentDone_append_false (s' := (insertJobs s b upd user specs).1) hj ?_ h0
+      intro y hy
+      rw [List.mem_map] at hy
+      obtain ⟨sp', _, rfl⟩ := hy
+      exact mkJob_not_terminal u' b sp'
+  rw [List.filter_eq_self.mpr (by intro p hp; rw [hall p hp]; rfl)]
+
+theorem linv_le_of_eq {s : State} (h : LInv (· = ·) s) : LInv (· ≤ ·) s :=
+  ⟨h.uniq, h.upd, h.range, h.pex, h.pnd, h.unc, h.pp, fun x hx h1 h2 => Int.le_of_eq (h.npp x hx h1 h2)⟩
+
+/-- the row of a child after its parent's `mark_job_complete` took the main branch -/
+theorem complete_child_row (s : State) (hu : JobsUnique s) (b j : Nat) (att inst : Option Nat) (ns : JState)
+    (st e : Option Int) (r : String) (d : Nat) (job : Job) (hj : findJob s b j = some job) (hact : job.state.active = true)
+    (hrc : (complete s b j att inst ns st e r d).2 = .ok 0) (x : Job) (hx : x ∈ s.jobs) (hc : isChildOf s b j x = true) :
+    ∃ x', findJob (complete s b j att inst ns st e r d).1 x.batch x.id = some x' ∧ x'.alwaysRun = x.alwaysRun ∧
+      (x'.state = .Pending ∨ x'.state = .Ready) ∧ (ns ≠ .Success → x'.cancelled = true) ∧
+      (ns = .Success → x'.cancelled = x.cancelled) := by
+  obtain ⟨_, h | ⟨job', _, _, _, _, hjobs⟩⟩ := complete_cases s b j att inst ns st e r d
+  · have := h.2 job hj hrc
+    rw [active_not_terminal hact] at this; simp at this
+  · have hF := jobFrame_completeMap s b j att ns
+    refine ⟨completeMap s b j att ns x, ?_, (hF x).2.2.2.2.1, ?_, ?_, ?_⟩
+    · rw [findJob_mapF hF hjobs, findJob_of_mem hu x hx]; rfl
+    all_goals
+      unfold completeMap
+      dsimp only
+      have hc' : isChildOf s b j (if isJob b j x = true then setStateAttempt ns att x else x) = true := by
+        rw [isChildOf_frame s b j x _ (by split_ifs <;> rfl) (by split_ifs <;> rfl)]; exact hc
+      rw [if_pos hc']
+    · exact childUpdate_state ns _
+    · intro hns; simp [childUpdate, hns]
+    · intro hns; simp only [childUpdate, hns, if_true]; split_ifs <;> rfl
 
 end HailVerif.BatchDB
